@@ -35,16 +35,45 @@ class SchedSem(Semantics):
             if isinstance(n, ast.Assign) and isinstance(n.targets[0], ast.Name) and isinstance(n.value, ast.List) and not n.value.elts:
                 self.lists.add(n.targets[0].id)
         self.submit_events = []
-        # the dependency loop
+        # the dependency loop (a for-loop, or a comprehension that builds the prerequisite list)
         self.dep_loop = None
+        self.dep_comp = None  # (Assign node, comprehension)
+        self.dep_aliases = {}
+        for n in walk_no_nested(finfo.node):
+            if isinstance(n, ast.Assign) and isinstance(n.targets[0], ast.Name) and self._iter_all_deps(n.value):
+                self.dep_aliases[n.targets[0].id] = True  # sorted_deps = sorted(graph.dependencies[target], ...)
         for n in walk_no_nested(finfo.node):
             if isinstance(n, ast.For) and self._iter_all_deps(n.iter):
                 self.dep_loop = n
+            if isinstance(n, ast.Assign) and isinstance(n.targets[0], ast.Name) and isinstance(n.value, (ast.ListComp, ast.GeneratorExp)) \
+                    and len(n.value.generators) == 1 and self._iter_all_deps(n.value.generators[0].iter):
+                self.dep_comp = (n, n.value)
+                self.lists.add(n.targets[0].id)
+        # result variables: locals that only ever hold Status constants (single-exit style)
+        self.smembers = enum_members(ctx.index, ctx.index.cls("gwf.core:Status"))
+        self.result_vars = set()
+        assigned = {}
+        for n in walk_no_nested(finfo.node):
+            if isinstance(n, ast.Assign) and len(n.targets) == 1 and isinstance(n.targets[0], ast.Name):
+                assigned.setdefault(n.targets[0].id, []).append(n.value)
+        for name, vals in assigned.items():
+            ok = True
+            for v in vals:
+                try:
+                    ev = ctx.ev.eval(v, finfo.module)
+                except CantEval:
+                    ok = False
+                    break
+                if not (isinstance(ev, EnumVal) and ev.cls == "gwf.core.Status"):
+                    ok = False
+                    break
+            if ok and vals:
+                self.result_vars.add(name)
 
     def _iter_all_deps(self, it):
         t = ast.unparse(it)
         base = f"{self.graph_p}.dependencies[{self.target_p}]"
-        if t == base:
+        if t == base or (isinstance(it, ast.Name) and it.id in getattr(self, "dep_aliases", {})):
             return True
         if isinstance(it, ast.Call) and it.args and self.index.canon(it.func, self.module) in ("builtins.sorted", "builtins.list", "builtins.set", "builtins.tuple"):
             return self._iter_all_deps(it.args[0])
@@ -59,6 +88,8 @@ class SchedSem(Semantics):
             return self.bmembers
         if text in self.lists:
             return ("EMPTY", "NONEMPTY")
+        if text in self.result_vars:
+            return self.smembers
         return None
 
     def truthy(self, v):
@@ -84,6 +115,8 @@ class SchedSem(Semantics):
         if value_expr is not None and self._is_status_call(value_expr):
             self.aliases[target_text] = True
             return state.vars.get(ast.unparse(value_expr), frozenset(self.bmembers))
+        if self.dep_comp is not None and value_expr is self.dep_comp[1]:
+            return frozenset(["EMPTY", "NONEMPTY"])
         return self.const(value_expr, state) if value_expr is not None else None
 
     def may_raise(self, node, state):
@@ -98,6 +131,8 @@ class SchedSem(Semantics):
             return state
         s = state
         self._assign_alias_pre(node)
+        if self.dep_comp is not None and node is self.dep_comp[0]:
+            s = s.with_fact("loop_done", True)
         for c in _calls(node):
             f = c.func
             if isinstance(f, ast.Name) and f.id == self.submit_p:
@@ -170,11 +205,14 @@ def explore_schedule(ctx):
             continue
         ret = None
         if o.payload is not None:
-            try:
-                v = ctx.ev.eval(o.payload, inner.module)
-                ret = v.member if isinstance(v, EnumVal) else None
-            except CantEval:
-                ret = None
+            if isinstance(o.payload, ast.Name) and o.payload.id in o.state.vars and len(o.state.vars[o.payload.id]) == 1:
+                ret = next(iter(o.state.vars[o.payload.id]))
+            else:
+                try:
+                    v = ctx.ev.eval(o.payload, inner.module)
+                    ret = v.member if isinstance(v, EnumVal) else None
+                except CantEval:
+                    ret = None
         bs = None
         for k, v in o.state.vars.items():
             if k == f"{sem.status_p}({sem.target_p})" or k in sem.aliases:
@@ -268,7 +306,7 @@ def rule_submit_discipline(ctx, r):
             "the target can be submitted before its dependencies were decided (and submitted)", inner.where,
             fmt_trace(early[0]["state"], inner.module) if early else None)
     skipped = [row for row in rows if row["kind"] == RETURN and not row["loop_done"]]
-    if sem.dep_loop is None:
+    if sem.dep_loop is None and sem.dep_comp is None:
         r.violation(con + "::visits-all-deps", "no loop over all of graph.dependencies[target] found: dependencies are not decided before the target", inner.where)
     else:
         r.check(not skipped, con + "::visits-all-deps", "every path decides all dependencies first (also for targets that are already pending/running)",
